@@ -90,6 +90,21 @@ func c11StoreFn(p *Prog, r *Report, lsC11 *Lockset, fn, root *ssa.Function, pnSt
 	{
 		base := FnName(originOf(fn))
 		storeIdx := 0
+		// the objects this function puts into the store: none of them may also be handed to the caller
+		storedObjs := map[ssa.Value]bool{}
+		for _, b := range fn.Blocks {
+			for _, ins := range b.Instrs {
+				if x, isSt := ins.(*ssa.Store); isSt {
+					if fa, ok := x.Addr.(*ssa.FieldAddr); ok && fieldOfAddr(fa) != nil && fieldOfAddr(fa).Name() == "data" {
+						for _, o := range ptrOrigins(x.Val) {
+							if _, isAl := o.(*ssa.Alloc); isAl {
+								storedObjs[o] = true
+							}
+						}
+					}
+				}
+			}
+		}
 		for _, b := range fn.Blocks {
 			for _, ins := range b.Instrs {
 				switch x := ins.(type) {
@@ -153,6 +168,10 @@ func c11StoreFn(p *Prog, r *Report, lsC11 *Lockset, fn, root *ssa.Function, pnSt
 				case *ssa.Return:
 					for i, res := range x.Results {
 						for _, o := range ptrOrigins(res) {
+							if storedObjs[o] {
+								nRets++
+								r.Fail("O2", fmt.Sprintf("%s|return-of-stored-object#%d", base, i), p.InstrPos(x), "the object just put into the store ("+Path(o)+") is also returned: the caller holds the store's own struct, which the next update assigns into")
+							}
 							if u, ok := o.(*ssa.UnOp); ok {
 								if fa, ok := u.X.(*ssa.FieldAddr); ok && fieldOfAddr(fa) != nil && fieldOfAddr(fa).Name() == "data" {
 									if lastStoreIsNil(u) {
